@@ -1738,6 +1738,10 @@ class FeatureSettings(BaseSettings):
             if normalizers is None
             else normalizers
         )
+        if self.normalizers.nfeat != self.nfeat:
+            raise ValueError("Need exactly one normalizer (or None) per feature")
+        if self.has_sl and self.normalizers.slmode != self.sl_settings.mode:
+            raise ValueError("Normalizers must use the mode of the semilocal settings")
         if self.hyb_settings.nfeat != 0:
             raise NotImplementedError("Hybrid DFT")
 
